@@ -16,6 +16,11 @@ Definition split4 (a b t : nat) (data : bytes) : res (bytes * bytes * bytes * by
          Ok (eph, nonce, ct, tag).
 Definition els_split (data : bytes) : res (bytes * bytes * bytes * bytes) := split4 ELS_EPH ELS_NONCE ELS_TAG data.
 
+(* X25519 ignores the most significant bit of the u-coordinate: only the encoding with that bit
+   clear is accepted as an ephemeral key (a second spelling would make the data malleable) *)
+Definition canonical_pub (k : bytes) : bool :=
+  match nth_error k 31 with Some b => (b <? 128)%N | None => false end.
+
 Section Cipher.
   Variable dh : bytes -> bytes -> bytes.          (* private key, public key -> shared secret *)
   Variable pubof : bytes -> bytes.                (* private key -> public key *)
@@ -32,7 +37,8 @@ Section Cipher.
     if negb (length cookie =? 32)%nat then Err
     else do s <- els_split data;
          let '(eph, nonce, ct, tag) := s in
-         match aead_dec (kdf (dh sk eph)) nonce ct tag with Some p => Ok p | None => Err end.
+         if negb (canonical_pub eph) then Err
+         else match aead_dec (kdf (dh sk eph)) nonce ct tag with Some p => Ok p | None => Err end.
 End Cipher.
 
 (* ---- UTC calendar day: date.UTC().Format("2006-01-02") as a function of Unix seconds ---- *)
